@@ -440,7 +440,17 @@ class HarnessTimeout(Exception):
     pass
 
 
+def _expand(up, twice):
+    res = []
+    for i, p in enumerate(up):
+        res.append(p)
+        if i in twice:
+            res.append(p)
+    return res
+
+
 def run_tunnel(case):
+    sent_twice = []
     import cflib.cpx.transports as T
     from cflib.crtp.crtpstack import CRTPPacket
     from cflib.crtp.tcpdriver import TcpDriver
@@ -461,11 +471,15 @@ def run_tunnel(case):
             drv.connect('tcp://h:5000', None, lambda m: errors.append(m))
             T.socket = orig
             # uplink
-            for hdr, payload in up:
+            for i_, (hdr, payload) in enumerate(up):
                 pk = CRTPPacket()
                 pk.set_header((hdr >> 4) & 0xF, hdr & 3)
                 pk.data = bytes(payload)
                 drv.send_packet(pk)
+                if i_ in case.get('resend', []):
+                    # the same packet object once more, as the Crazyflie's resend of an unanswered request does
+                    drv.send_packet(pk)
+                    sent_twice.append(i_)
             # wait until the CRTP queue exists (harness synchronisation only)
             t0 = time.time()
             while 3 not in drv.cpx._router._rxQueues:
@@ -503,7 +517,7 @@ def run_tunnel(case):
     want = bytearray()
     body = _ref_wire(3, 1, 1, False, [0x21, 0x01])
     want += struct.pack('H', len(body)) + body
-    for hdr, payload in up:
+    for hdr, payload in _expand(up, sent_twice):
         h = ((hdr >> 4) & 0xF) << 4 | 0x0C | (hdr & 3)
         body = _ref_wire(3, 1, 3, False, [h] + list(payload))
         want += struct.pack('H', len(body)) + body
@@ -571,6 +585,7 @@ class _FakeSerialPort:
 
 
 def run_serial_tunnel(case):
+    sent_twice = []
     import types
     import cflib.cpx.transports as T
     import cflib.crtp.serialdriver as SD
@@ -596,11 +611,15 @@ def run_serial_tunnel(case):
         with contextlib.redirect_stdout(io.StringIO()):
             drv.connect('serial://ttyFAKE0', None, lambda m: errors.append(m))
             port = ports[0]
-            for hdr, payload in up:
+            for i_, (hdr, payload) in enumerate(up):
                 pk = CRTPPacket()
                 pk.set_header((hdr >> 4) & 0xF, hdr & 3)
                 pk.data = bytes(payload)
                 drv.send_packet(pk)
+                if i_ in case.get('resend', []):
+                    # the same packet object once more, as the Crazyflie's resend of an unanswered request does
+                    drv.send_packet(pk)
+                    sent_twice.append(i_)
             for hdr, payload in down:
                 wire = _ref_wire(1, 3, 3, False, [hdr] + list(payload))
                 frame = bytes([0xFF, len(wire)]) + wire
@@ -639,7 +658,7 @@ def run_serial_tunnel(case):
     if port.bad:
         out.fail('serial:frame-format', repr(port.bad[:3]))
     want = [_ref_wire(3, 1, 1, False, [0x21, 0x01]), _ref_wire(3, 1, 1, False, [0x20, 0x01])]
-    for hdr, payload in up:
+    for hdr, payload in _expand(up, sent_twice):
         h = ((hdr >> 4) & 0xF) << 4 | 0x0C | (hdr & 3)
         want.append(_ref_wire(3, 1, 3, False, [h] + list(payload)))
     if [bytes(f) for f in port.frames] != want:
@@ -660,7 +679,8 @@ def tunnel_strategy(draw):
     down = [list(x) for x in draw(st.lists(_crtp, max_size=5))]
     n = sum(4 + 1 + len(p[1]) for p in down)
     cuts = draw(st.lists(st.integers(1, max(1, n)), max_size=6))
-    return {'up': up, 'down': down, 'cuts': cuts}
+    resend = sorted(draw(st.sets(st.integers(0, max(0, len(up) - 1)), max_size=2))) if up else []
+    return {'up': up, 'down': down, 'cuts': cuts, 'resend': resend}
 
 
 def subchecks(tier):
